@@ -71,7 +71,7 @@ SUMM = [(r'as Clone>::clone$', s_clone), (r'Vec::<.*>::new$|HashMap::<.*>::with_
 
 def contexts(ctx):
     run = ctx.run
-    run.bounds['context'] = 'contexts with 0..2 parents, 0..2 results, 0..2 variables, 0..1 definitions; the bound name equal to an existing one or new'
+    run.bounds['context'] = 'contexts with 0..2 (thorough: 0..3) parents, results, variables and 0..1 (0..2) definitions; the bound name equal to an existing one or new'
     run.assume('Vec / HashMap / Rc are modelled as sequences / association lists / shared objects; names are compared by identity of their symbolic tag')
     CT = ctx.structs['Context']
     PR = r'^processor::<impl at [^>]*>::'
@@ -110,10 +110,11 @@ def contexts(ctx):
     }
     for meth, mkargs in CASES.items():
         F = ex.find(PR + meth + '$')
-        for n_par in (0, 1, 2):
-            for n_res in (0, 1, 2):
-                for n_var in (0, 1, 2):
-                    for n_def in (0, 1):
+        R = (0, 1, 2) if ctx.quick else (0, 1, 2, 3)
+        for n_par in R:
+            for n_res in R:
+                for n_var in R:
+                    for n_def in ((0, 1) if ctx.quick else (0, 1, 2)):
                         names = ['NEWNAME']
                         if meth == 'with_variable': names += [f'var{i}' for i in range(n_var)]
                         if meth == 'with_definition': names += [f'def{i}' for i in range(n_def)]
